@@ -435,6 +435,9 @@ func classes(c kmerCase) []string {
 	if c.Offset != 0 {
 		l = append(l, "indexed-sequence-with-an-offset")
 	}
+	if len(c.Seq) > 4096 {
+		l = append(l, "sequence-longer-than-4096")
+	}
 	letters := c.letters()
 	all := scan(letters, c.Seq, c.K, 0, len(c.Seq))
 	inner := false
@@ -539,6 +542,10 @@ func gen(t *rapid.T) kmerCase {
 		maxLen = 5000
 	}
 	n := rapid.OneOf(rapid.IntRange(c.K+1, c.K+12), rapid.IntRange(c.K+1, 120), rapid.IntRange(c.K+1, maxLen)).Draw(t, "n")
+	if rapid.IntRange(0, 39).Draw(t, "long-sequence") == 23 {
+		// beyond 4096 and 8192 letters (block-wise or concurrent tabulation has its seams there)
+		n = rapid.SampledFrom([]int{4096, 4097, 4100, 8191, 8192, 8200, 9000, 12300}).Draw(t, "n-long") + rapid.IntRange(0, 3).Draw(t, "n-long-plus")
+	}
 	c.Seq = genSeq(t, c.letters(), n, "seq")
 	switch rapid.IntRange(0, 5).Draw(t, "range-class") {
 	case 0:
